@@ -237,6 +237,7 @@ namespace mtbb {
   template<typename Index, typename Func>
     Func parallel_for(Index first, Index last, Index step, Index grainsize,
                       const Func& f) {
+    if (!(first < last)) return f; /* empty range: do not call f on an empty chunk */
     return parallel_for_grainsize_aux(first, 0, (last - first + step - 1) / step, step, grainsize, f);
   }
 
